@@ -72,20 +72,38 @@ inductive Cls
   | processControl   -- exit / sys.exit
   | offlineTool      -- the REPL and the file-reading parts of execute_vyxal, never reached by the online entry point
   | network          -- urlopen (¨U), only requested online by its template
+  | numberValue      -- sympy.nsimplify / sympify of a value the site has already dispatched on as a number
+  | constantText     -- sympy.nsimplify of a string constant in the source
+  | symbolicMath     -- sympy's expression parser applied to a *string operand* of a calculus / algebra element (∆ḋ, ∆ṁ, ∆c on
+                     -- strings, …): not one of C19's three mechanisms (E, † on a string, input parsing); unguarded online — see DESIGN.md O1
   deriving DecidableEq, Repr
 
 def audited : List ((String × String × String) × Cls) := [
+  (("elements.divide", "sympy-eval:sympy.sympify(lhs)", ""), .numberValue),
+  (("elements.e_digits", "sympy-eval:sympy.nsimplify(lhs, rational=True)", ""), .numberValue),
   (("elements.function_call", "exec", "not ctx.online"), .offlineOnly),
+  (("elements.integer_divide", "sympy-eval:sympy.sympify(lhs)", ""), .numberValue),
   (("elements.request", "urllib.request.urlopen", ""), .network),
+  (("elements.round_to", "sympy-eval:sympy.nsimplify(str(sympy.N(lhs, int(rhs) + 1)), rational=Tr", ""), .numericText),
   (("elements.vy_exec", "exec", ""), .generatedCode),
+  (("elements.vy_sort", "sympy-eval:sympy.nsimplify('.'.join(parts), rational=True)", ""), .numericText),
+  (("elements.vy_str", "sympy-eval:sympy.nsimplify(lhs, rational=True)", ""), .numberValue),
   (("elements.vy_str", "eval", ""), .numericText),
+  (("elements.vy_str", "sympy-eval:sympy.nsimplify(lhs)", ""), .numberValue),
   (("elements.vy_print", "eval", ""), .numericText),
+  (("elements.vy_print", "sympy-eval:sympy.nsimplify(lhs)", ""), .numberValue),
   (("elements.vy_print", "print", "not ctx.online"), .offlineOnly),
   (("helpers.get_input", "input", ""), .hostInput),
+  (("helpers.local_minima", "sympy-eval:sympy.sympify(lhs)", ""), .symbolicMath),
+  (("helpers.local_maxima", "sympy-eval:sympy.sympify(lhs)", ""), .symbolicMath),
+  (("helpers.make_expression", "sympy-eval:sympy.parse_expr(expr, transformations=transformations)", ""), .symbolicMath),
   (("helpers.reverse_number", "eval", ""), .numericText),
   (("helpers.simplify", "eval", ""), .numericText),
+  (("helpers.stationary_points", "sympy-eval:sympy.sympify(lhs)", ""), .symbolicMath),
   (("helpers.vy_eval", "ast.literal_eval", "ctx.online"), .literal),
   (("helpers.vy_eval", "eval", "not ctx.online"), .offlineOnly),
+  (("helpers.vyxalify", "sympy-eval:sympy.nsimplify(value, rational=True)", ""), .numberValue),
+  (("helpers.vyxalify", "sympy-eval:sympy.nsimplify(value, rational=True)", ""), .numberValue),
   (("main.execute_vyxal", "sys.exit", ""), .processControl),
   (("main.execute_vyxal", "open", ""), .offlineTool),
   (("main.execute_vyxal", "open", ""), .offlineTool),
@@ -102,6 +120,7 @@ def audited : List ((String × String × String) × Cls) := [
   (("template:□", "input", ""), .hostInput),
   (("template:□", "input", ""), .hostInput),
   (("template:øḋ", "eval", ""), .numericText),
+  (("template:kg", "sympy-eval:sympy.nsimplify('1/2 + sqrt(5)/2')", ""), .constantText),
   (("template:kN", "eval", ""), .numericText),
   (("template:kð", "eval", ""), .numericText)]
 
@@ -115,6 +134,15 @@ theorem user_text_sinks_guarded :
     audited.all (fun e =>
       (e.1.2.1 == "print" || e.1.2.1 == "eval" || e.1.2.1 == "exec") → 
         (e.2 == .offlineOnly && e.1.2.2 == "not ctx.online") || e.2 == .generatedCode || e.2 == .numericText || e.2 == .offlineTool) = true := by
+  decide +kernel
+
+/-- C19's own mechanisms — input parsing (`vy_eval`, `get_input`) and the call element (`function_call`) — contain no sink
+    outside: an offline-only eval/exec, `literal_eval`, and `input()`. A sympy string evaluation added there (a "read a/b
+    as a number" convenience) is a new row and breaks `sinks_accounted`. -/
+theorem input_and_call_sites_are_literal_only :
+    audited.all (fun e =>
+      (e.1.1 == "helpers.vy_eval" || e.1.1 == "helpers.get_input" || e.1.1 == "elements.function_call") →
+        (e.2 == .offlineOnly && e.1.2.2 == "not ctx.online") || e.2 == .literal || e.2 == .hostInput) = true := by
   decide +kernel
 
 end C19
